@@ -15,6 +15,7 @@
 package utils
 
 import (
+	"encoding/json"
 	"fmt"
 	"math"
 	"regexp"
@@ -370,6 +371,13 @@ func ConvertJsonValueToTv(d any, slt *sdcpb.SchemaLeafType) (*sdcpb.TypedValue, 
 			i = v
 		case float64:
 			i = uint64(v)
+		case json.Number: // decoded with UseNumber
+			i, err = strconv.ParseUint(v.String(), 10, 64)
+			if err != nil {
+				return nil, err
+			}
+		default:
+			return nil, fmt.Errorf("error converting %v (%T) to %s", d, d, slt.Type)
 		}
 		return &sdcpb.TypedValue{
 			Value: &sdcpb.TypedValue_UintVal{UintVal: i},
@@ -393,6 +401,13 @@ func ConvertJsonValueToTv(d any, slt *sdcpb.SchemaLeafType) (*sdcpb.TypedValue, 
 			i = v
 		case float64:
 			i = int64(v)
+		case json.Number: // decoded with UseNumber
+			i, err = strconv.ParseInt(v.String(), 10, 64)
+			if err != nil {
+				return nil, err
+			}
+		default:
+			return nil, fmt.Errorf("error converting %v (%T) to %s", d, d, slt.Type)
 		}
 		return &sdcpb.TypedValue{
 			Value: &sdcpb.TypedValue_IntVal{IntVal: i},
